@@ -453,6 +453,9 @@ mut('c13-early-drop', 'C13', 'C13.LOCK[lookup]', dirf, '''        let lookup_inf
         drop(_guard);
 
         let root_hash = EpochHash(''', 'request releases the cache read lock before its last storage access')
+mut('c01-dup-key', 'C01', 'C01.P.duplicates', dirf, '''        let distinct_set: HashSet<AkdLabel> =
+            updates.iter().map(|(label, _)| label.clone()).collect();''',
+    '''        let distinct_set: HashSet<&(AkdLabel, AkdValue)> = updates.iter().collect();''', 'duplicate check keyed by (label, value) (seed C01-r1-a)')
 
 out = [m for m in M if not m.get('disabled')]
 json.dump({'mutants': out}, open(os.path.join(os.path.dirname(os.path.abspath(__file__)), 'mutants.json'), 'w'), indent=1)
